@@ -4,6 +4,7 @@ import (
 	"context"
 	"encoding/json"
 	"errors"
+	"net/http"
 	"sort"
 	"strings"
 
@@ -53,6 +54,139 @@ type Registry struct {
 	prompts   []promptDef
 	resources []resourceDef
 	specCache spec
+	// list filters installed on the server ("" = none): hide-all-nil | hide-all-empty | hide-some | ctx
+	Filter string
+}
+
+// RoleHeader: the request header the context function of the "ctx" filter variant copies into the request context.
+const RoleHeader = "X-Verif-Role"
+
+type roleKey struct{}
+
+// RoleContext is the context function installed with the "ctx" filters.
+func RoleContext(ctx context.Context, r *http.Request) context.Context {
+	return context.WithValue(ctx, roleKey{}, r.Header.Get(RoleHeader))
+}
+
+// Filtered returns a copy of the registry whose servers carry list filters of the given variant.
+func (r *Registry) Filtered(variant string) *Registry {
+	return &Registry{Name: r.Name + "+filter:" + variant, tools: r.tools, prompts: r.prompts, resources: r.resources, Filter: variant}
+}
+
+// what a filter does with a list: "all" | "some" | "nil" | "empty"
+func (r *Registry) filterMode(role string, list string) string {
+	switch r.Filter {
+	case "hide-all-nil":
+		return "nil"
+	case "hide-all-empty":
+		return "empty"
+	case "hide-some":
+		return "some"
+	case "ctx":
+		switch role {
+		case "admin":
+			return "all"
+		case "some":
+			return "some"
+		}
+		// everybody else sees nothing — a nil slice from one filter, an empty one from the next
+		if list == "prompts" {
+			return "empty"
+		}
+		return "nil"
+	}
+	return "all"
+}
+
+// keepSome: the entries "hide-some" lets through (chosen by name, so that the model can be told)
+func keepSome(name string) bool { return len(name)%2 == 0 }
+
+func filterList[T any](mode string, in []*T, name func(*T) string) []*T {
+	switch mode {
+	case "nil":
+		return nil
+	case "empty":
+		return in[:0]
+	case "some":
+		out := make([]*T, 0)
+		for _, x := range in {
+			if x != nil && keepSome(name(x)) {
+				out = append(out, x)
+			}
+		}
+		return out
+	}
+	return in
+}
+
+func (r *Registry) toolFilter(ctx context.Context, in []*mcp.Tool) []*mcp.Tool {
+	role, _ := ctx.Value(roleKey{}).(string)
+	return filterList(r.filterMode(role, "tools"), in, func(t *mcp.Tool) string { return t.Name })
+}
+func (r *Registry) promptFilter(ctx context.Context, in []*mcp.Prompt) []*mcp.Prompt {
+	role, _ := ctx.Value(roleKey{}).(string)
+	return filterList(r.filterMode(role, "prompts"), in, func(t *mcp.Prompt) string { return t.Name })
+}
+func (r *Registry) resourceFilter(ctx context.Context, in []*mcp.Resource) []*mcp.Resource {
+	role, _ := ctx.Value(roleKey{}).(string)
+	return filterList(r.filterMode(role, "resources"), in, func(t *mcp.Resource) string { return t.URI })
+}
+
+// StreamableOptions / SSEOptions: the server options the registry's filter variant needs.
+func (r *Registry) StreamableOptions() []mcp.ServerOption {
+	if r.Filter == "" {
+		return nil
+	}
+	return []mcp.ServerOption{mcp.WithHTTPContextFunc(RoleContext), mcp.WithToolListFilter(r.toolFilter),
+		mcp.WithPromptListFilter(r.promptFilter), mcp.WithResourceListFilter(r.resourceFilter)}
+}
+func (r *Registry) SSEOptions() []mcp.SSEOption {
+	if r.Filter == "" {
+		return nil
+	}
+	return []mcp.SSEOption{mcp.WithSSEContextFunc(RoleContext), mcp.WithSSEToolListFilter(r.toolFilter),
+		mcp.WithSSEPromptListFilter(r.promptFilter), mcp.WithSSEResourceListFilter(r.resourceFilter)}
+}
+
+// SpecFor: the registry as the Lean driver reads it for a request made under `role` — with the names / uris each list
+// filter lets through (absent: no filter).
+func (r *Registry) SpecFor(role string) spec {
+	base := r.Spec()
+	if r.Filter == "" {
+		return base
+	}
+	out := spec{}
+	for k, v := range base {
+		out[k] = v
+	}
+	shown := func(list string, names []string) []any {
+		res := []any{}
+		switch r.filterMode(role, list) {
+		case "all":
+			for _, n := range names {
+				res = append(res, n)
+			}
+		case "some":
+			for _, n := range names {
+				if keepSome(n) {
+					res = append(res, n)
+				}
+			}
+		}
+		return res
+	}
+	var tn, pn, rn []string
+	for _, t := range r.tools {
+		tn = append(tn, t.name)
+	}
+	for _, p := range r.prompts {
+		pn = append(pn, p.name)
+	}
+	for _, x := range r.resources {
+		rn = append(rn, x.uri)
+	}
+	out["listTools"], out["listPrompts"], out["listResources"] = shown("tools", tn), shown("prompts", pn), shown("resources", rn)
+	return out
 }
 
 // what encoding/json says about a channel inside a result
